@@ -420,21 +420,25 @@ end reference
 
 /-! ## parsing (decidable well-formedness) -/
 
-/-- split a format into segments the way the grammar reads it; `none` = not well-formed -/
+/-- neither the terminator nor `%` -/
+def ordinary (x : Char) : Bool := x ≠ NUL && x ≠ '%'
+
+/-- split a format into segments the way the grammar reads it (independently of the scanner: `takeWhile`/`dropWhile`);
+    `none` = not well-formed (a `%` that no conversion character follows, or a NUL inside) -/
 def parse (conv : Str) : Nat → Str → Option (List Seg)
   | 0, _ => none
   | _+1, [] => some []
-  | fuel+1, '%' :: '%' :: r => (parse conv fuel r).map (Seg.pct :: ·)
-  | fuel+1, '%' :: r =>
-    let body := r.takeWhile fun x => !strchrHit conv x
-    match r.dropWhile fun x => !strchrHit conv x with
-    | [] => none
-    | c :: r' => if c = NUL then none else (parse conv fuel r').map (Seg.spec body c :: ·)
   | fuel+1, c :: r =>
-    let s := (c :: r).takeWhile fun x => x ≠ NUL && x ≠ '%'
-    match s with
-    | [] => none
-    | _ => (parse conv fuel ((c :: r).dropWhile fun x => x ≠ NUL && x ≠ '%')).map (Seg.lit s :: ·)
+    if c = '%' then
+      if r.head? = some '%' then (parse conv fuel r.tail).map (Seg.pct :: ·)
+      else
+        match r.dropWhile (fun x => !strchrHit conv x) with
+        | [] => none
+        | d :: r' =>
+          if d = NUL then none
+          else (parse conv fuel r').map (Seg.spec (r.takeWhile fun x => !strchrHit conv x) d :: ·)
+    else if c = NUL then none
+    else (parse conv fuel ((c :: r).dropWhile ordinary)).map (Seg.lit ((c :: r).takeWhile ordinary) :: ·)
 
 def parseFmt (conv : Str) (fmt : Str) : Option (List Seg) := parse conv (fmt.length + 1) fmt
 
